@@ -2,12 +2,13 @@
 # tools/try_seed.sh <seeded-dir> [tier]   — apply a seeded change to a scratch worktree of /repo, run the check of
 # the property it breaks against that worktree (OQ_REPO), remove the worktree.  Prints DETECTED / MISSED.
 # (Equivalent to `git -C /repo apply …; ./check …; git -C /repo checkout -- .` but does not disturb /repo.)
+HERE="$(cd "$(dirname "$0")/.." && pwd)"
 D="$(cd "$1" && pwd)"; TIER="${2:-quick}"
 PROP=$(python3 -c "import json,sys; print(json.load(open('$D/meta.json'))['property'])")
 WT="/tmp/seedwt_$$"
 git -C /repo worktree add --detach "$WT" HEAD >/dev/null 2>&1 || { echo "cannot create worktree"; exit 2; }
 if ! git -C "$WT" apply "$D/patch.diff"; then echo "patch does not apply"; git -C /repo worktree remove --force "$WT"; exit 2; fi
-cd /verif
+cd "$HERE"
 OQ_REPO="$WT" ./check "$PROP" --tier "$TIER" > "/tmp/try_seed_$$.log" 2>&1
 RC=$?
 git -C /repo worktree remove --force "$WT"; git -C /repo worktree prune
